@@ -244,7 +244,7 @@ def check_history(case):
 
 def parts(tier):
     return [
-        Part("law", strategy=_case(), check=check_law, n={"quick": 20000, "thorough": 500000}),
+        Part("law", strategy=_case(), check=check_law, n={"quick": 20000, "thorough": 2000000}),
         Part("fire", strategy=_case(fire=True), check=check_fire, n={"quick": 640, "thorough": 12000}),
         Part("history", strategy=_hist(), check=check_history, n={"quick": 6000, "thorough": 120000}),
     ]
